@@ -94,7 +94,7 @@ Example c03_nonvacuous :
 Proof. vm_compute. reflexivity. Qed.
 
 (* ---- exactly once, end to end, for a whole call (Model/Conf.v, Proofs/ConfNet.v) ----
-   On a plain bench (scripts of sends and queries, every model added) a call of the net model that ends
+   On a plain bench (scripts of sends, queries and scheduling requests, every model added) a call of the net model that ends
    with an empty pool has picked a list L of messages - the handler / replier / init invocations it
    logged plus the sink writes it performed - which is, as a multiset, exactly the messages present at
    the start plus everything the invoked handlers sent (after each connection's map / filter):
